@@ -67,6 +67,14 @@ CLAIMED["C16"] = {
     "technique": "value terms + loop-carried-variable pairing (init/update/use in one natural loop) + must-pass-through facts on polymorphic MIR",
 }
 
+CLAIMED["C18"] = {
+    "category": "other",
+    "text": "The premise list of the strided-iterator lemma, each decided on MIR: the exhaustion guard dominates the pointer formation (fact i < entries); pointer = memory_map.as_ptr() + i * desc_size read as one EFIMemoryDesc; constructor: entries = len / desc_size with facts len % desc_size == 0, desc_size >= 40, desc_size % 8 == 0, base aligned, version == 1 (failing edges diverge); the iterator is constructed only there, fields private, next() writes only i (+1, on the Some path); len() = entries - i; descriptor layout equals UEFI's. The in-bounds/alignment/count conclusion follows by the written hand proof for all sizes and lengths.",
+    "design_ref": "DESIGN.md §4 C18",
+    "note": TB + "; the arithmetic step i < L/d and d | L => i*d + d <= L is a hand proof over the decided premises",
+    "technique": "guard-dominance facts + value terms of pointer/stride/count + who-may-construct / who-writes census + layout table",
+}
+
 PENDING = "check not yet built in this session (machinery under construction; see DESIGN.md §9 build order) - not claimed until its premises run, pass on the repaired tree and fire on seeded breaks"
 NOT_APPLICABLE = {("C%02d" % i): PENDING for i in range(1, 21)}
 
